@@ -1,7 +1,11 @@
 (* C04 — lemmas about the removal model *)
 From Coq Require Import List ZArith Bool Lia.
 Import ListNotations.
-From GU Require Import C04.Model.
+From GU Require Import C04.Facts C04.Gen C04.Model.
+
+(* the facts of the repaired code, as a literal so that [simpl] sees through the projections *)
+Notation good := (mkRm true true TTested true true true true true TTested true true true NName true).
+Notation goodg := (mkGc true true).
 
 (* ---------- equality tests ---------- *)
 
@@ -214,7 +218,7 @@ Definition listed (ns : list name) : Prop := Forall (fun n => excl_name n = fals
 
 Lemma fold_rm_changes_only : forall cancelled rm p t, rm_spec rm ->
   forall ns s, listed ns -> dirs_above s p -> lookup s p = Some EDir ->
-  changes_only (touchable p t) s (fst (fold_rm cancelled rm s p ns)).
+  changes_only (touchable p t) s (fst (fold_rm good cancelled rm s p ns)).
 Proof.
   intros cancelled rm p t Hrm. induction ns as [|n r IH]; intros s Hls Hd Hl; simpl; [apply changes_only_refl|].
   destruct cancelled; [apply changes_only_refl|].
@@ -242,7 +246,7 @@ Proof.
 Qed.
 
 Lemma clean_dir_with_changes_only : forall cancelled rm t, rm_spec rm ->
-  forall s p, dirs_above s p -> not_link (lookup s p) -> changes_only (touchable p t) s (fst (clean_dir_with excl_name cancelled rm s p)).
+  forall s p, dirs_above s p -> not_link (lookup s p) -> changes_only (touchable p t) s (fst (clean_dir_with excl_name good cancelled rm s p)).
 Proof.
   intros cancelled rm t Hrm s p Hd Hn. unfold clean_dir_with.
   destruct cancelled; [apply changes_only_refl|].
@@ -252,7 +256,7 @@ Proof.
   apply fold_rm_changes_only; auto; [eapply ls_listed; eauto | eapply ls_some_dir; eauto].
 Qed.
 
-Lemma remove_changes_only : forall cancelled fuel, rm_spec (remove excl_name excl_path true cancelled fuel).
+Lemma remove_changes_only : forall cancelled fuel, rm_spec (remove excl_name excl_path good cancelled fuel).
 Proof.
   intros cancelled. induction fuel as [|f IH]; intros s p t Hd; simpl; [apply changes_only_refl|].
   rewrite lstat_phys by assumption.
@@ -265,7 +269,7 @@ Proof.
   - assert (Hn : not_link (lookup s p)) by (intros t0 Ht; rewrite Ht in El; discriminate).
     destruct (negb (exists_ s p)); [apply changes_only_refl|].
     destruct (is_dir s p) as [isDir|]; [|apply changes_only_refl].
-    set (c := if isDir && negb (is_empty s p) then clean_dir_with excl_name cancelled (remove excl_name excl_path true cancelled f) s p else (s, Ok)).
+    set (c := if isDir && negb (is_empty s p) then clean_dir_with excl_name good cancelled (remove excl_name excl_path good cancelled f) s p else (s, Ok)).
     assert (Hc : changes_only (touchable p t) s (fst c)).
     { unfold c. destruct (isDir && negb (is_empty s p)); [|apply changes_only_refl].
       now apply clean_dir_with_changes_only. }
@@ -283,14 +287,14 @@ End RemovalFacts.
 (* ---------- garbage collection ---------- *)
 
 Lemma remove0_changes_only : forall cancelled fuel s p, dirs_above s p ->
-  changes_only (under p) s (fst (remove0 true cancelled fuel s p)).
+  changes_only (under p) s (fst (remove0 good cancelled fuel s p)).
 Proof.
   intros c fuel s p Hd. eapply changes_only_weaken; [|apply (remove_changes_only (fun _ => false) (fun _ => false) c fuel s p p Hd)].
   intros q Hq. exact (touchable_under _ _ _ _ _ Hq).
 Qed.
 
 Lemma gc_file_changes_only : forall cancelled old fuel s p, dirs_above s p ->
-  changes_only (under p) s (fst (gc_file true cancelled old fuel s p)).
+  changes_only (under p) s (fst (gc_file good cancelled old fuel s p)).
 Proof.
   intros c old fuel s p Hd. unfold gc_file. destruct c; [apply changes_only_refl|].
   destruct (resolve link_fuel s true p) as [q|]; [|apply changes_only_refl].
@@ -324,7 +328,7 @@ Proof.
 Qed.
 
 Lemma gc_changes_only : forall cancelled old ord fuel s p dp, dirs_above s p -> (dp = false -> not_link (lookup s p)) ->
-  changes_only (under p) s (fst (gc true cancelled old ord fuel s p dp)).
+  changes_only (under p) s (fst (gc good goodg cancelled old ord fuel s p dp)).
 Proof.
   intros c old ord. induction fuel as [|f IH]; intros s p dp Hd Hroot; simpl; [apply changes_only_refl|].
   destruct c; [apply changes_only_refl|].
@@ -336,9 +340,9 @@ Proof.
   destruct (is_dir s p) as [[|]|] eqn:Ed; try now apply gc_file_changes_only.
   destruct (ls (fun _ => false) s p) as [ns|] eqn:E; [|apply changes_only_refl].
   assert (Hl : lookup s p = Some EDir) by (eapply ls_some_dir; eauto).
-  assert (Hf : changes_only (under p) s (fst (gc_children (fun a q => gc true false old ord f a q true) s p (ord p ns)))).
+  assert (Hf : changes_only (under p) s (fst (gc_children (fun a q => gc good goodg false old ord f a q true) s p (ord p ns)))).
   { apply gc_children_changes_only; auto. intros s0 p0 Hd0. apply IH; [exact Hd0 | discriminate]. }
-  destruct (gc_children (fun a q => gc true false old ord f a q true) s p (ord p ns)) as [s1 b]. simpl in Hf.
+  destruct (gc_children (fun a q => gc good goodg false old ord f a q true) s p (ord p ns)) as [s1 b]. simpl in Hf.
   destruct b; [exact Hf|].
   destruct (is_empty s1 p && dp); [|exact Hf].
   eapply changes_only_trans; [exact Hf|]. apply remove0_changes_only.
@@ -489,7 +493,7 @@ Proof.
 Qed.
 
 Lemma fold_rm_wf : forall c rm p, rm_spec excl_name excl_path rm -> wf_spec rm ->
-  forall ns s, wf s -> dirs_above s p -> lookup s p = Some EDir -> wf (fst (fold_rm c rm s p ns)).
+  forall ns s, wf s -> dirs_above s p -> lookup s p = Some EDir -> wf (fst (fold_rm good c rm s p ns)).
 Proof.
   intros c rm p Hrm Hw. induction ns as [|n r IH]; intros s Hwf Hd Hl; simpl; [exact Hwf|].
   destruct c; [exact Hwf|].
@@ -499,7 +503,7 @@ Proof.
 Qed.
 
 Lemma clean_dir_with_wf : forall c rm, rm_spec excl_name excl_path rm -> wf_spec rm ->
-  forall s p, wf s -> dirs_above s p -> not_link (lookup s p) -> wf (fst (clean_dir_with excl_name c rm s p)).
+  forall s p, wf s -> dirs_above s p -> not_link (lookup s p) -> wf (fst (clean_dir_with excl_name good c rm s p)).
 Proof.
   intros c rm Hrm Hw s p Hwf Hd Hn. unfold clean_dir_with.
   destruct c; [exact Hwf|].
@@ -509,7 +513,7 @@ Proof.
   apply fold_rm_wf; auto. eapply ls_some_dir; eauto.
 Qed.
 
-Lemma remove_wf : forall c fuel, wf_spec (remove excl_name excl_path true c fuel).
+Lemma remove_wf : forall c fuel, wf_spec (remove excl_name excl_path good c fuel).
 Proof.
   intros c. induction fuel as [|f IH]; intros s p t Hwf Hd; simpl; [exact Hwf|].
   rewrite lstat_phys by assumption.
@@ -518,7 +522,7 @@ Proof.
   - assert (Hn : not_link (lookup s p)) by (intros t0 Ht; rewrite Ht in El; discriminate).
     destruct (negb (exists_ s p)); [exact Hwf|].
     destruct (is_dir s p) as [isDir|]; [|exact Hwf].
-    set (x := if isDir && negb (is_empty s p) then clean_dir_with excl_name c (remove excl_name excl_path true c f) s p else (s, Ok)).
+    set (x := if isDir && negb (is_empty s p) then clean_dir_with excl_name good c (remove excl_name excl_path good c f) s p else (s, Ok)).
     assert (Hx : wf (fst x) /\ changes_only (touchable excl_name excl_path p t) s (fst x)).
     { unfold x. destruct (isDir && negb (is_empty s p)); [|split; [exact Hwf | apply changes_only_refl]].
       split; [apply clean_dir_with_wf; auto; apply remove_changes_only | apply clean_dir_with_changes_only; auto; apply remove_changes_only]. }
@@ -564,8 +568,8 @@ Proof. induction ns as [|n r IH]; simpl; [reflexivity|]. now rewrite Hen, IH. Qe
 Lemma fold_rm_complete : forall c rm p, rm_spec excl_name excl_path rm -> wf_spec rm -> complete_spec rm ->
   forall ns s, wf s -> dirs_above s p -> lookup s p = Some EDir ->
   (forall n, lookup s (p ++ [n]) <> None -> In n ns) ->
-  snd (fold_rm c rm s p ns) = Ok ->
-  forall n, lookup (fst (fold_rm c rm s p ns)) (p ++ [n]) = None.
+  snd (fold_rm good c rm s p ns) = Ok ->
+  forall n, lookup (fst (fold_rm good c rm s p ns)) (p ++ [n]) = None.
 Proof.
   intros c rm p Hrm Hw Hc. induction ns as [|n r IH]; intros s Hwf Hd Hl Hall Hok m; simpl in *.
   - destruct (lookup s (p ++ [m])) eqn:E; [|reflexivity]. exfalso. apply (Hall m). congruence.
@@ -586,8 +590,8 @@ Qed.
 (* a successful CleanDir of a real directory leaves it in place and empty *)
 Lemma clean_dir_with_complete : forall c rm, rm_spec excl_name excl_path rm -> wf_spec rm -> complete_spec rm ->
   forall s p, wf s -> dirs_above s p -> lookup s p = Some EDir ->
-  snd (clean_dir_with excl_name c rm s p) = Ok ->
-  children (fst (clean_dir_with excl_name c rm s p)) p = [].
+  snd (clean_dir_with excl_name good c rm s p) = Ok ->
+  children (fst (clean_dir_with excl_name good c rm s p)) p = [].
 Proof.
   intros c rm Hrm Hw Hc s p Hwf Hd Hl Hok. unfold clean_dir_with in *.
   destruct c; [discriminate|].
@@ -601,7 +605,7 @@ Proof.
 Qed.
 
 Lemma fold_rm_keeps_root : forall c rm p, rm_spec excl_name excl_path rm ->
-  forall ns s, dirs_above s p -> lookup s p = Some EDir -> lookup (fst (fold_rm c rm s p ns)) p = Some EDir.
+  forall ns s, dirs_above s p -> lookup s p = Some EDir -> lookup (fst (fold_rm good c rm s p ns)) p = Some EDir.
 Proof.
   intros c rm p Hrm. induction ns as [|n r IH]; intros s Hd Hl; simpl; [exact Hl|].
   destruct c; [exact Hl|].
@@ -610,7 +614,7 @@ Proof.
 Qed.
 
 Lemma clean_dir_with_keeps_root : forall c rm, rm_spec excl_name excl_path rm ->
-  forall s p, dirs_above s p -> lookup s p = Some EDir -> lookup (fst (clean_dir_with excl_name c rm s p)) p = Some EDir.
+  forall s p, dirs_above s p -> lookup s p = Some EDir -> lookup (fst (clean_dir_with excl_name good c rm s p)) p = Some EDir.
 Proof.
   intros c rm Hrm s p Hd Hl. unfold clean_dir_with.
   destruct c; [exact Hl|].
@@ -620,10 +624,10 @@ Proof.
   now apply fold_rm_keeps_root.
 Qed.
 
-Lemma remove_complete_l : forall c fuel, complete_spec (remove excl_name excl_path true c fuel).
+Lemma remove_complete_l : forall c fuel, complete_spec (remove excl_name excl_path good c fuel).
 Proof.
   intros c. induction fuel as [|f IH]; intros s p t Hwf Hd; [discriminate|].
-  remember (remove excl_name excl_path true c (S f) s p t) as R eqn:HR. simpl in HR.
+  remember (remove excl_name excl_path good c (S f) s p t) as R eqn:HR. simpl in HR.
   rewrite lstat_phys in HR by assumption.
   destruct (is_link (lookup s p)) eqn:El.
   - simpl in HR. destruct c; [subst R; discriminate|]. rewrite Hep in HR. subst R. now apply os_remove_complete.
@@ -642,7 +646,7 @@ Proof.
         pose proof (clean_dir_with_wf excl_name excl_path c _ Hrm Hw s p Hwf Hd Hn') as Hwf1.
         pose proof (clean_dir_with_changes_only excl_name excl_path c _ t Hrm s p Hd Hn') as Hch.
         pose proof (clean_dir_with_keeps_root c _ Hrm s p Hd Elk) as Hl1.
-        destruct (clean_dir_with excl_name c (remove excl_name excl_path true c f) s p) as [s1 r1]. simpl in *.
+        destruct (clean_dir_with excl_name good c (remove excl_name excl_path good c f) s p) as [s1 r1]. simpl in *.
         destruct r1; [|subst R; discriminate].
         assert (Hd1 : dirs_above s1 p) by (eapply dirs_above_preserved; [apply touchable_under | exact Hch | exact Hd]).
         rewrite (is_empty_dir_phys s1 p Hd1 Hl1), (Hcc eq_refl) in HR. simpl in HR.
@@ -724,7 +728,7 @@ Variable excl_path : path -> bool.
 
 Definition shrink_spec (rm : fsys -> path -> path -> fsys * res) : Prop := forall s p t, shrinks s (fst (rm s p t)).
 
-Lemma fold_rm_shrinks : forall c rm p, shrink_spec rm -> forall ns s, shrinks s (fst (fold_rm c rm s p ns)).
+Lemma fold_rm_shrinks : forall c rm p, shrink_spec rm -> forall ns s, shrinks s (fst (fold_rm good c rm s p ns)).
 Proof.
   intros c rm p Hs. induction ns as [|n r IH]; intros s; simpl; [apply shrinks_refl|].
   destruct c; [apply shrinks_refl|].
@@ -732,21 +736,21 @@ Proof.
   destruct r1; [eapply shrinks_trans; [exact H1 | apply IH] | exact H1].
 Qed.
 
-Lemma clean_dir_with_shrinks : forall c rm, shrink_spec rm -> forall s p, shrinks s (fst (clean_dir_with excl_name c rm s p)).
+Lemma clean_dir_with_shrinks : forall c rm, shrink_spec rm -> forall s p, shrinks s (fst (clean_dir_with excl_name good c rm s p)).
 Proof.
   intros c rm Hs s p. unfold clean_dir_with. destruct c; [apply shrinks_refl|].
   destruct (negb (exists_ s p)); [apply shrinks_refl|]. destruct (is_empty s p); [apply shrinks_refl|].
   destruct (ls excl_name s p); [now apply fold_rm_shrinks | apply shrinks_refl].
 Qed.
 
-Lemma remove_shrinks : forall lf c fuel, shrink_spec (remove excl_name excl_path lf c fuel).
+Lemma remove_shrinks : forall c fuel, shrink_spec (remove excl_name excl_path good c fuel).
 Proof.
-  intros lf c. induction fuel as [|f IH]; intros s p t; simpl; [apply shrinks_refl|].
-  destruct (lf && is_link (lstat s p)).
+  intros c. induction fuel as [|f IH]; intros s p t; simpl; [apply shrinks_refl|].
+  destruct (is_link (lstat s p)).
   - destruct c; [apply shrinks_refl|]. destruct (excl_path t); [apply shrinks_refl | apply os_remove_shrinks].
   - destruct (negb (exists_ s p)); [apply shrinks_refl|].
     destruct (is_dir s p) as [isDir|]; [|apply shrinks_refl].
-    set (x := if isDir && negb (is_empty s p) then clean_dir_with excl_name c (remove excl_name excl_path lf c f) s p else (s, Ok)).
+    set (x := if isDir && negb (is_empty s p) then clean_dir_with excl_name good c (remove excl_name excl_path good c f) s p else (s, Ok)).
     assert (Hx : shrinks s (fst x)) by (unfold x; destruct (isDir && negb (is_empty s p)); [now apply clean_dir_with_shrinks | apply shrinks_refl]).
     destruct x as [s1 r1]. simpl in Hx. destruct r1; [|exact Hx].
     destruct (isDir && negb (is_empty s1 p)); [exact Hx|]. destruct c; [exact Hx|].
@@ -758,7 +762,7 @@ Definition nofuel_spec (f : nat) (rm : fsys -> path -> path -> fsys * res) : Pro
 
 Lemma fold_rm_nofuel : forall c rm p f, rm_spec excl_name excl_path rm -> shrink_spec rm -> nofuel_spec f rm ->
   forall ns s, dirs_above s p -> lookup s p = Some EDir -> (forall n, size_below s (p ++ [n]) < f) ->
-  snd (fold_rm c rm s p ns) <> Err EFuel.
+  snd (fold_rm good c rm s p ns) <> Err EFuel.
 Proof.
   intros c rm p f Hrm Hs Hnf. induction ns as [|n r IH]; intros s Hd Hl Hsz; simpl; [discriminate|].
   destruct c; [discriminate|].
@@ -772,7 +776,7 @@ Qed.
 
 Lemma clean_dir_with_nofuel : forall c rm f, rm_spec excl_name excl_path rm -> shrink_spec rm -> nofuel_spec f rm ->
   forall s p, dirs_above s p -> not_link (lookup s p) -> (forall n, size_below s (p ++ [n]) < f) ->
-  snd (clean_dir_with excl_name c rm s p) <> Err EFuel.
+  snd (clean_dir_with excl_name good c rm s p) <> Err EFuel.
 Proof.
   intros c rm f Hrm Hs Hnf s p Hd Hn Hsz. unfold clean_dir_with. destruct c; [discriminate|].
   destruct (negb (exists_ s p)); [discriminate|]. destruct (is_empty s p); [discriminate|].
@@ -786,7 +790,7 @@ Proof.
   destruct (lookup s q) as [[cid| |t]|]; simpl; try discriminate. destruct (children s q); discriminate.
 Qed.
 
-Lemma remove_nofuel : forall c fuel, nofuel_spec fuel (remove excl_name excl_path true c fuel).
+Lemma remove_nofuel : forall c fuel, nofuel_spec fuel (remove excl_name excl_path good c fuel).
 Proof.
   intros c. induction fuel as [|f IH]; intros s p t Hd Hsz; [lia|]. simpl.
   rewrite lstat_phys by assumption.
@@ -795,7 +799,7 @@ Proof.
   - assert (Hn : not_link (lookup s p)) by (intros t0 Ht; rewrite Ht in El; discriminate).
     simpl. destruct (negb (exists_ s p)); [discriminate|].
     destruct (is_dir s p) as [isDir|] eqn:Ed; [|discriminate].
-    set (x := if isDir && negb (is_empty s p) then clean_dir_with excl_name c (remove excl_name excl_path true c f) s p else (s, Ok)).
+    set (x := if isDir && negb (is_empty s p) then clean_dir_with excl_name good c (remove excl_name excl_path good c f) s p else (s, Ok)).
     assert (Hx : snd x <> Err EFuel).
     { unfold x. destruct isDir; simpl; [|discriminate]. destruct (negb (is_empty s p)); [|discriminate].
       assert (Hl : lookup s p = Some EDir).
@@ -841,7 +845,7 @@ Definition ok_spec (f : nat) (rm : fsys -> path -> path -> fsys * res) : Prop :=
 
 Lemma fold_rm_ok : forall rm p f, rm_spec excl_name excl_path rm -> wf_spec rm -> shrink_spec rm -> ok_spec f rm ->
   forall ns s, wf s -> dirs_above s p -> lookup s p = Some EDir -> (forall n, size_below s (p ++ [n]) < f) ->
-  snd (fold_rm false rm s p ns) = Ok.
+  snd (fold_rm good false rm s p ns) = Ok.
 Proof.
   intros rm p f Hrm Hw Hs Hok. induction ns as [|n r IH]; intros s Hwf Hd Hl Hsz; simpl; [reflexivity|].
   destruct (child_step excl_name excl_path rm s p n Hrm Hd Hl) as [Hd1 [Hl1 _]].
@@ -854,7 +858,7 @@ Qed.
 
 Lemma clean_dir_with_ok : forall rm f, rm_spec excl_name excl_path rm -> wf_spec rm -> shrink_spec rm -> ok_spec f rm ->
   forall s p, wf s -> dirs_above s p -> lookup s p = Some EDir -> (forall n, size_below s (p ++ [n]) < f) ->
-  snd (clean_dir_with excl_name false rm s p) = Ok.
+  snd (clean_dir_with excl_name good false rm s p) = Ok.
 Proof.
   intros rm f Hrm Hw Hs Hok s p Hwf Hd Hl Hsz. unfold clean_dir_with.
   destruct (negb (exists_ s p)); [reflexivity|]. destruct (is_empty s p); [reflexivity|].
@@ -862,11 +866,11 @@ Proof.
   rewrite readdir_phys by assumption. eapply fold_rm_ok; eauto.
 Qed.
 
-Lemma remove_ok_c : forall c fuel, c = false -> ok_spec fuel (remove excl_name excl_path true c fuel).
+Lemma remove_ok_c : forall c fuel, c = false -> ok_spec fuel (remove excl_name excl_path good c fuel).
 Proof.
   intros c. induction fuel as [|f IH]; intros Hc s p t Hwf Hd Hsz; [lia|].
   specialize (IH Hc).
-  remember (remove excl_name excl_path true c (S f) s p t) as R eqn:HR. simpl in HR.
+  remember (remove excl_name excl_path good c (S f) s p t) as R eqn:HR. simpl in HR.
   rewrite lstat_phys in HR by assumption.
   destruct (is_link (lookup s p)) eqn:El.
   - simpl in HR. subst c. rewrite Hep in HR. subst R. apply os_remove_ok; [exact Hd | |].
@@ -879,7 +883,7 @@ Proof.
     + simpl in HR. subst c.
       pose proof (remove_changes_only excl_name excl_path false f) as Hrm.
       pose proof (remove_wf excl_name excl_path false f) as Hw.
-      pose proof (remove_shrinks excl_name excl_path true false f) as Hsh.
+      pose proof (remove_shrinks excl_name excl_path false f) as Hsh.
       pose proof (remove_complete_l excl_name excl_path Hen Hep false f) as Hcm.
       assert (Hn' : not_link (lookup s p)) by (rewrite Elk; exact Hn).
       assert (Hch : forall n, size_below s (p ++ [n]) < f).
@@ -889,7 +893,7 @@ Proof.
         pose proof (clean_dir_with_complete excl_name excl_path Hen false _ Hrm Hw Hcm s p Hwf Hd Elk Hcok) as Hcc.
         pose proof (clean_dir_with_changes_only excl_name excl_path false _ t Hrm s p Hd Hn') as Hchg.
         pose proof (clean_dir_with_keeps_root excl_name excl_path false _ Hrm s p Hd Elk) as Hl1.
-        destruct (clean_dir_with excl_name false (remove excl_name excl_path true false f) s p) as [s1 r1]. simpl in *. subst r1.
+        destruct (clean_dir_with excl_name good false (remove excl_name excl_path good false f) s p) as [s1 r1]. simpl in *. subst r1.
         assert (Hd1 : dirs_above s1 p) by (eapply dirs_above_preserved; [apply touchable_under | exact Hchg | exact Hd]).
         rewrite (is_empty_dir_phys s1 p Hd1 Hl1), Hcc in HR. simpl in HR.
         rewrite Hep in HR. subst R. apply os_remove_ok; [exact Hd1 | congruence | now right].
@@ -901,19 +905,19 @@ Proof.
     + simpl in HR. now subst R.
 Qed.
 
-Lemma remove_ok : forall fuel, ok_spec fuel (remove excl_name excl_path true false fuel).
+Lemma remove_ok : forall fuel, ok_spec fuel (remove excl_name excl_path good false fuel).
 Proof. intros fuel. now apply remove_ok_c. Qed.
 
 End Success.
 
 (* ---------- garbage collection: fuel ---------- *)
 
-Lemma remove0_shrinks : forall lf c fuel s p, shrinks s (fst (remove0 lf c fuel s p)).
+Lemma remove0_shrinks : forall c fuel s p, shrinks s (fst (remove0 good c fuel s p)).
 Proof. intros. apply remove_shrinks. Qed.
 
-Lemma gc_file_shrinks : forall lf c old fuel s p, shrinks s (fst (gc_file lf c old fuel s p)).
+Lemma gc_file_shrinks : forall c old fuel s p, shrinks s (fst (gc_file good c old fuel s p)).
 Proof.
-  intros lf c old fuel s p. unfold gc_file. destruct c; [apply shrinks_refl|].
+  intros c old fuel s p. unfold gc_file. destruct c; [apply shrinks_refl|].
   destruct (resolve link_fuel s true p) as [q|]; [|apply shrinks_refl].
   destruct (old q); [apply remove0_shrinks | apply shrinks_refl].
 Qed.
@@ -927,26 +931,26 @@ Proof.
   destruct r1 as [|[]]; try exact Hk. exact H1.
 Qed.
 
-Lemma gc_shrinks : forall lf c old ord fuel s p dp, shrinks s (fst (gc lf c old ord fuel s p dp)).
+Lemma gc_shrinks : forall c old ord fuel s p dp, shrinks s (fst (gc good goodg c old ord fuel s p dp)).
 Proof.
-  intros lf c old ord. induction fuel as [|f IH]; intros s p dp; simpl; [apply shrinks_refl|].
+  intros c old ord. induction fuel as [|f IH]; intros s p dp; simpl; [apply shrinks_refl|].
   destruct c; [apply shrinks_refl|].
   destruct (negb (exists_ s p)); [apply shrinks_refl|].
-  destruct (lf && dp && is_link (lstat s p)); [apply gc_file_shrinks|].
+  destruct (dp && is_link (lstat s p)); [apply gc_file_shrinks|].
   destruct (is_dir s p) as [[|]|]; try apply gc_file_shrinks.
   destruct (ls (fun _ => false) s p) as [ns|]; [|apply shrinks_refl].
-  pose proof (gc_children_shrinks (fun a q => gc lf false old ord f a q true) p (fun s0 q => IH s0 q true) (ord p ns) s) as Hf.
-  destruct (gc_children (fun a q => gc lf false old ord f a q true) s p (ord p ns)) as [s1 b]. simpl in Hf.
+  pose proof (gc_children_shrinks (fun a q => gc good goodg false old ord f a q true) p (fun s0 q => IH s0 q true) (ord p ns) s) as Hf.
+  destruct (gc_children (fun a q => gc good goodg false old ord f a q true) s p (ord p ns)) as [s1 b]. simpl in Hf.
   destruct b; [exact Hf|].
   destruct (is_empty s1 p && dp); [|exact Hf].
   eapply shrinks_trans; [exact Hf | apply remove0_shrinks].
 Qed.
 
-Lemma remove0_nofuel : forall c fuel s p, dirs_above s p -> size_below s p < fuel -> snd (remove0 true c fuel s p) <> Err EFuel.
+Lemma remove0_nofuel : forall c fuel s p, dirs_above s p -> size_below s p < fuel -> snd (remove0 good c fuel s p) <> Err EFuel.
 Proof. intros c fuel s p Hd Hsz. unfold remove0. now apply remove_nofuel. Qed.
 
 Lemma gc_file_nofuel : forall c old fuel s p, dirs_above s p -> size_below s p < fuel ->
-  snd (gc_file true c old fuel s p) <> Err EFuel.
+  snd (gc_file good c old fuel s p) <> Err EFuel.
 Proof.
   intros c old fuel s p Hd Hsz. unfold gc_file. destruct c; [discriminate|].
   destruct (resolve link_fuel s true p) as [q|]; [|discriminate].
@@ -969,7 +973,7 @@ Proof.
 Qed.
 
 Lemma gc_nofuel : forall c old ord fuel s p dp, dirs_above s p -> (dp = false -> not_link (lookup s p)) ->
-  size_below s p + 1 < fuel -> snd (gc true c old ord fuel s p dp) <> Err EFuel.
+  size_below s p + 1 < fuel -> snd (gc good goodg c old ord fuel s p dp) <> Err EFuel.
 Proof.
   intros c old ord. induction fuel as [|f IH]; intros s p dp Hd Hroot Hsz; [lia|]. simpl.
   destruct c; [discriminate|].
@@ -981,14 +985,14 @@ Proof.
   destruct (is_dir s p) as [[|]|] eqn:Ed; try (apply gc_file_nofuel; [exact Hd | lia]).
   destruct (ls (fun _ => false) s p) as [ns|] eqn:E; [|discriminate].
   assert (Hl : lookup s p = Some EDir) by (eapply ls_some_dir; eauto).
-  set (g := fun a q => gc true false old ord f a q true).
+  set (g := fun a q => gc good goodg false old ord f a q true).
   assert (Hg : gc_spec g) by (intros s0 p0 Hd0; apply gc_changes_only; [exact Hd0 | discriminate]).
   assert (Hch : forall n, size_below s (p ++ [n]) + 1 < f).
   { intros n. assert (H : lookup s p <> None) by congruence. pose proof (size_child_lt s p n H). lia. }
-  pose proof (gc_children_nofuel g p f Hg (fun s0 q => gc_shrinks true false old ord f s0 q true)
+  pose proof (gc_children_nofuel g p f Hg (fun s0 q => gc_shrinks false old ord f s0 q true)
                 (fun s0 q Hd0 Hs0 => IH s0 q true Hd0 (fun H => ltac:(discriminate H)) Hs0) (ord p ns) s Hd Hl Hch) as Hb.
   pose proof (gc_children_changes_only g p Hg (ord p ns) s Hd Hl) as Hf.
-  pose proof (gc_children_shrinks g p (fun s0 q => gc_shrinks true false old ord f s0 q true) (ord p ns) s) as Hsh.
+  pose proof (gc_children_shrinks g p (fun s0 q => gc_shrinks false old ord f s0 q true) (ord p ns) s) as Hsh.
   destruct (gc_children g s p (ord p ns)) as [s1 b]. simpl in *. subst b.
   destruct (is_empty s1 p && dp); [|discriminate].
   apply remove0_nofuel.
@@ -999,20 +1003,20 @@ Qed.
 (* ---------- statements used by Props.v ---------- *)
 
 Lemma remove_confined_l : forall en ep c fuel s p, dirs_above s p ->
-  forall q, ~ under p q -> lookup (fst (remove_top en ep true c fuel s p)) q = lookup s q.
+  forall q, ~ under p q -> lookup (fst (remove_top en ep good c fuel s p)) q = lookup s q.
 Proof.
   intros en ep c fuel s p Hd q Hq. apply (remove_changes_only en ep c fuel s p p Hd). intros Ht. apply Hq. eapply touchable_under; eauto.
 Qed.
 
 Lemma clean_dir_confined_l : forall en ep c fuel s p, dirs_above s p -> not_link (lookup s p) ->
-  forall q, ~ under p q -> lookup (fst (clean_dir en ep true c fuel s p)) q = lookup s q.
+  forall q, ~ under p q -> lookup (fst (clean_dir en ep good c fuel s p)) q = lookup s q.
 Proof.
   intros en ep c fuel s p Hd Hn q Hq. unfold clean_dir.
   apply (clean_dir_with_changes_only en ep c _ p (remove_changes_only en ep c fuel) s p Hd Hn). intros Ht. apply Hq. eapply touchable_under; eauto.
 Qed.
 
 Lemma gc_confined_l : forall c old ord fuel s root, dirs_above s root -> not_link (lookup s root) ->
-  forall q, ~ under root q -> lookup (fst (garbage_collect true c old ord fuel s root)) q = lookup s q.
+  forall q, ~ under root q -> lookup (fst (garbage_collect good goodg c old ord fuel s root)) q = lookup s q.
 Proof.
   intros c old ord fuel s root Hd Hn q Hq. unfold garbage_collect. now apply (gc_changes_only c old ord fuel s root false Hd (fun _ => Hn)).
 Qed.
@@ -1050,7 +1054,7 @@ Proof.
 Qed.
 
 Lemma remove_keeps_excluded_l : forall en ep c fuel s p, wf s -> dirs_above s p ->
-  forall q, protected en ep p q -> lookup s q <> None -> survives_with_ancestors s (fst (remove_top en ep true c fuel s p)) q.
+  forall q, protected en ep p q -> lookup s q <> None -> survives_with_ancestors s (fst (remove_top en ep good c fuel s p)) q.
 Proof.
   intros en ep c fuel s p Hwf Hd q Hp Hex. eapply keeps_gen; eauto.
   - exact (remove_wf en ep c fuel s p p Hwf Hd).
@@ -1059,7 +1063,7 @@ Proof.
 Qed.
 
 Lemma clean_dir_keeps_excluded_l : forall en ep c fuel s p, wf s -> dirs_above s p -> not_link (lookup s p) ->
-  forall q, protected_below en ep p q -> lookup s q <> None -> survives_with_ancestors s (fst (clean_dir en ep true c fuel s p)) q.
+  forall q, protected_below en ep p q -> lookup s q <> None -> survives_with_ancestors s (fst (clean_dir en ep good c fuel s p)) q.
 Proof.
   intros en ep c fuel s p Hwf Hd Hn q Hp Hex. unfold clean_dir. eapply keeps_gen; eauto.
   - exact (clean_dir_with_wf en ep c _ (remove_changes_only en ep c fuel) (remove_wf en ep c fuel) s p Hwf Hd Hn).
@@ -1070,9 +1074,9 @@ Qed.
 Lemma clean_dir_complete_l : forall en ep c fuel s p,
   (forall n, en n = false) -> (forall q, ep q = false) ->
   wf s -> dirs_above s p -> lookup s p = Some EDir ->
-  snd (clean_dir en ep true c fuel s p) = Ok ->
-  lookup (fst (clean_dir en ep true c fuel s p)) p = Some EDir /\
-  forall q, under p q -> q <> p -> lookup (fst (clean_dir en ep true c fuel s p)) q = None.
+  snd (clean_dir en ep good c fuel s p) = Ok ->
+  lookup (fst (clean_dir en ep good c fuel s p)) p = Some EDir /\
+  forall q, under p q -> q <> p -> lookup (fst (clean_dir en ep good c fuel s p)) q = None.
 Proof.
   intros en ep c fuel s p Hen Hep Hwf Hd Hl Hok. unfold clean_dir in *.
   pose proof (remove_changes_only en ep c fuel) as Hrm.
@@ -1095,11 +1099,11 @@ Proof.
 Qed.
 
 Lemma remove_terminates_l : forall en ep c fuel s p, dirs_above s p -> size_below s p < fuel ->
-  snd (remove_top en ep true c fuel s p) <> Err EFuel.
+  snd (remove_top en ep good c fuel s p) <> Err EFuel.
 Proof. intros en ep c fuel s p Hd Hsz. unfold remove_top. now apply remove_nofuel. Qed.
 
 Lemma clean_dir_terminates_l : forall en ep c fuel s p, dirs_above s p -> not_link (lookup s p) -> size_below s p < fuel ->
-  snd (clean_dir en ep true c fuel s p) <> Err EFuel.
+  snd (clean_dir en ep good c fuel s p) <> Err EFuel.
 Proof.
   intros en ep c fuel s p Hd Hn Hsz. unfold clean_dir. apply (clean_dir_with_nofuel en ep c _ fuel); auto.
   - apply remove_changes_only.
@@ -1109,12 +1113,12 @@ Proof.
 Qed.
 
 Lemma gc_terminates_l : forall c old ord fuel s root, dirs_above s root -> not_link (lookup s root) ->
-  size_below s root + 1 < fuel -> snd (garbage_collect true c old ord fuel s root) <> Err EFuel.
+  size_below s root + 1 < fuel -> snd (garbage_collect good goodg c old ord fuel s root) <> Err EFuel.
 Proof. intros c old ord fuel s root Hd Hn Hsz. unfold garbage_collect. now apply gc_nofuel. Qed.
 
 Lemma remove_succeeds_l : forall en ep fuel s p,
   (forall n, en n = false) -> (forall q, ep q = false) -> wf s -> dirs_above s p -> size_below s p < fuel ->
-  snd (remove_top en ep true false fuel s p) = Ok /\ forall q, under p q -> lookup (fst (remove_top en ep true false fuel s p)) q = None.
+  snd (remove_top en ep good false fuel s p) = Ok /\ forall q, under p q -> lookup (fst (remove_top en ep good false fuel s p)) q = None.
 Proof.
   intros en ep fuel s p Hen Hep Hwf Hd Hsz. unfold remove_top.
   pose proof (remove_ok en ep Hen Hep fuel s p p Hwf Hd Hsz) as Hok.
@@ -1123,12 +1127,12 @@ Qed.
 
 Lemma clean_dir_succeeds_l : forall en ep fuel s p,
   (forall n, en n = false) -> (forall q, ep q = false) -> wf s -> dirs_above s p -> lookup s p = Some EDir -> size_below s p < fuel ->
-  snd (clean_dir en ep true false fuel s p) = Ok /\
-  lookup (fst (clean_dir en ep true false fuel s p)) p = Some EDir /\
-  forall q, under p q -> q <> p -> lookup (fst (clean_dir en ep true false fuel s p)) q = None.
+  snd (clean_dir en ep good false fuel s p) = Ok /\
+  lookup (fst (clean_dir en ep good false fuel s p)) p = Some EDir /\
+  forall q, under p q -> q <> p -> lookup (fst (clean_dir en ep good false fuel s p)) q = None.
 Proof.
   intros en ep fuel s p Hen Hep Hwf Hd Hl Hsz.
-  assert (Hok : snd (clean_dir en ep true false fuel s p) = Ok).
+  assert (Hok : snd (clean_dir en ep good false fuel s p) = Ok).
   { unfold clean_dir. apply (clean_dir_with_ok en ep _ fuel); auto.
     - apply remove_changes_only.
     - apply remove_wf.
@@ -1145,6 +1149,9 @@ Definition witness : fsys :=
     ([nm 3], EDir); ([nm 3; nm 4], EDir); ([nm 3; nm 4; nm 5], ELink [nm 1]); ([nm 3; nm 6], ELink [nm 9]) ].
 Definition noex_n : name -> bool := fun _ => false.
 Definition noex_p : path -> bool := fun _ => false.
+(* the facts of the code before the D10 fix: no Lstat test, everything else as now *)
+Definition before_fix_rm : rm_facts := mkRm false true TTested true true true true true TTested true true true NName true.
+Definition before_fix_gc : gc_facts := mkGc false true.
 
 Lemma witness_dirs_above : dirs_above witness [nm 3].
 Proof.
@@ -1153,10 +1160,10 @@ Proof.
 Qed.
 
 Lemma without_lstat_outside_deleted :
-  snd (remove_top noex_n noex_p false false 10 witness [nm 3]) = Ok /\
-  lookup (fst (remove_top noex_n noex_p false false 10 witness [nm 3])) [nm 1; nm 2] = None /\
+  snd (remove_top noex_n noex_p before_fix_rm false 10 witness [nm 3]) = Ok /\
+  lookup (fst (remove_top noex_n noex_p before_fix_rm false 10 witness [nm 3])) [nm 1; nm 2] = None /\
   lookup witness [nm 1; nm 2] = Some (EFile 7) /\
-  lookup (fst (remove_top noex_n noex_p false false 10 witness [nm 3])) [nm 3] = Some EDir.
+  lookup (fst (remove_top noex_n noex_p before_fix_rm false 10 witness [nm 3])) [nm 3] = Some EDir.
 Proof. vm_compute. repeat split; reflexivity. Qed.
 
 Lemma witness_not_under : ~ under [nm 3] [nm 1; nm 2].
@@ -1175,9 +1182,9 @@ Qed.
 
 Lemma loop_witness_facts :
   size_below loop_witness [nm 3] = 3%nat /\
-  snd (remove_top noex_n noex_p true false 4 loop_witness [nm 3]) = Ok /\
-  snd (remove_top noex_n noex_p false false 4 loop_witness [nm 3]) = Err EFuel /\
-  snd (remove_top noex_n noex_p false false 30 loop_witness [nm 3]) = Err EFuel.
+  snd (remove_top noex_n noex_p expected_rm false 4 loop_witness [nm 3]) = Ok /\
+  snd (remove_top noex_n noex_p before_fix_rm false 4 loop_witness [nm 3]) = Err EFuel /\
+  snd (remove_top noex_n noex_p before_fix_rm false 30 loop_witness [nm 3]) = Err EFuel.
 Proof. vm_compute. repeat split; reflexivity. Qed.
 
 (* ---------- RemoveWithPrivileges: the escalation path, ownership included ---------- *)
@@ -1185,7 +1192,7 @@ Proof. vm_compute. repeat split; reflexivity. Qed.
 Definition pass_confined (f : fsys -> path -> fsys * res) : Prop :=
   forall s p, dirs_above s p -> changes_only (under p) s (fst (f s p)).
 
-Lemma remove0_pass_confined : forall c fuel, pass_confined (remove0 true c fuel).
+Lemma remove0_pass_confined : forall c fuel, pass_confined (remove0 good c fuel).
 Proof. intros c fuel s p Hd. now apply remove0_changes_only. Qed.
 
 Lemma lookup_filter_below : forall q s x, ~ under q x ->
@@ -1266,3 +1273,21 @@ Lemma priv_witness_facts :
   lookup (fst (fst (remove_with_privileges failing_pass failing_pass force_remove true 0%Z priv_witness (fun _ => 4242%Z) [nm 3; nm 5]))) [nm 3; nm 5] = None /\
   lookup (fst (fst (remove_with_privileges failing_pass failing_pass force_remove true 0%Z priv_witness (fun _ => 4242%Z) [nm 3; nm 5]))) [nm 1] = Some EDir.
 Proof. vm_compute. repeat split; reflexivity. Qed.
+
+(* ---------- from the facts generated from the source to the theorems ----------
+   Every theorem of Props.v is stated for the model instantiated with the GENERATED records; it follows from the lemma
+   about the expected facts as soon as the generated record passes the decidable condition (by computation). *)
+Lemma with_rm_ok : forall (P : rm_facts -> Prop) k, rm_ok k = true -> P expected_rm -> P k.
+Proof. intros P k H HP. now rewrite (rm_ok_eq k H). Qed.
+
+Lemma with_rm_gc_ok : forall (P : rm_facts -> gc_facts -> Prop) k g, rm_ok k = true -> gc_ok g = true -> P expected_rm expected_gc -> P k g.
+Proof. intros P k g H1 H2 HP. now rewrite (rm_ok_eq k H1), (gc_ok_eq g H2). Qed.
+
+Lemma with_priv_ok : forall (P : priv_facts -> Prop) k, priv_ok k = true -> P expected_priv -> P k.
+Proof. intros P k H HP. now rewrite (priv_ok_eq k H). Qed.
+
+Lemma library_force_confined : forall pk, pass_confined (library_force pk).
+Proof.
+  intros pk. unfold library_force. destruct (pv_force_passes_path pk); [exact force_remove_pass_confined|].
+  intros s p _. apply changes_only_refl.
+Qed.
